@@ -31,10 +31,11 @@ import (
 // ---------------------------------------------------------------------------
 
 type segEval struct {
-	c    *Ctx
-	at   *ssa.BasicBlock // where the value is used: facts known there refine "the whole string"
-	seen map[ssa.Value]bool
-	out  map[string]bool
+	c     *Ctx
+	at    *ssa.BasicBlock // where the value is used: facts known there refine "the whole string"
+	seen  map[ssa.Value]bool
+	out   map[string]bool
+	depth int
 }
 
 func isStringsCall(v ssa.Value, name string) *ssa.Call {
@@ -116,6 +117,26 @@ func (e *segEval) whole() {
 	e.out["whole"] = true
 }
 
+// helper: the value is result idx of a module helper; what the helper returns is evaluated in its own body
+// (attribute reads of the mapping it was handed come out as such).
+func (e *segEval) helper(call *ssa.Call, idx int) bool {
+	cal := call.Call.StaticCallee()
+	if cal == nil || cal.Blocks == nil || !e.c.P.InModule(cal) || e.depth >= 2 {
+		return false
+	}
+	e.depth++
+	saved := e.at
+	for _, b := range cal.Blocks {
+		if ret, ok := b.Instrs[len(b.Instrs)-1].(*ssa.Return); ok && idx < len(ret.Results) {
+			e.at = b
+			e.eval(ret.Results[idx])
+		}
+	}
+	e.at = saved
+	e.depth--
+	return true
+}
+
 func (e *segEval) eval(v ssa.Value) {
 	if e.seen[v] {
 		return
@@ -166,8 +187,15 @@ func (e *segEval) eval(v ssa.Value) {
 			e.eval(x.Tuple)
 			return
 		}
+		if call, isCall := x.Tuple.(*ssa.Call); isCall && e.helper(call, x.Index) {
+			return
+		}
 		if lk, isLk := x.Tuple.(*ssa.Lookup); isLk && x.Index == 0 {
 			e.eval(lk)
+			return
+		}
+	case *ssa.Call:
+		if e.helper(x, 0) {
 			return
 		}
 	case *ssa.Lookup:
@@ -572,7 +600,79 @@ func (c *Ctx) PARSEWIDTH(rule string) []report.Obligation {
 			n++
 			args := call.Call.Args
 			key := c.P.FuncID(fn) + " :: size asked of " + staticName(call.Common())
-			size, isConst := constInt(args[len(args)-1])
+			// need: the widest type the value is used as
+			var needOf func(v ssa.Value, depth int) (int, string)
+			needOf = func(v ssa.Value, depth int) (int, string) {
+				need, what := 0, ""
+				upd := func(w int, s string) {
+					if w > need {
+						need, what = w, s
+					}
+				}
+				for _, r := range *v.Referrers() {
+					switch x := r.(type) {
+					case *ssa.Extract:
+						if x.Index == 0 {
+							upd(needOf(x, depth))
+						}
+					case *ssa.Convert:
+						upd(typeBits(x.Type()), "converted to "+c.P.TypeStr(x.Type()))
+					case *ssa.Phi:
+						if depth < 3 {
+							upd(needOf(x, depth+1))
+						}
+					case *ssa.DebugRef:
+					case *ssa.Return:
+						if _, isTuple := v.Type().(*types.Tuple); isTuple {
+							upd(64, "returned as it is")
+						} else {
+							upd(typeBits(v.Type()), "used as "+c.P.TypeStr(v.Type()))
+						}
+					default:
+						upd(typeBits(v.Type()), "used as "+c.P.TypeStr(v.Type()))
+					}
+				}
+				return need, what
+			}
+			sizeArg := args[len(args)-1]
+			if pa, isParam := sizeArg.(*ssa.Parameter); isParam && fn.Signature.Results().Len() > 0 {
+				// a helper that takes the size from its callers: each caller's size against what that caller does with
+				// the helper's result
+				idx := -1
+				for i, p := range fn.Params {
+					if p == pa {
+						idx = i
+					}
+				}
+				sites := 0
+				for _, g := range c.P.Funcs {
+					for _, cs2 := range callSites(g, func(com *ssa.CallCommon) bool { return com.StaticCallee() == fn }) {
+						call2, ok := cs2.(*ssa.Call)
+						if !ok || idx < 0 || idx >= len(call2.Call.Args) {
+							continue
+						}
+						sites++
+						k2 := c.P.FuncID(g) + " :: size passed to " + c.P.FuncID(fn) + " for " + staticName(call.Common())
+						size, isConst := constInt(call2.Call.Args[idx])
+						if !isConst {
+							out = append(out, bad(rule, k2, c.P.InstrPos(call2), "the size is not a constant"))
+							continue
+						}
+						if size == 0 {
+							size = 64
+						}
+						need, what := needOf(call2, 0)
+						out = append(out, verdict(int(size) >= need, rule, k2, c.P.InstrPos(call2),
+							fmt.Sprintf("size %d, result %s", size, what),
+							fmt.Sprintf("size %d asked, but the result is %s (%d bits): values that fit the type are rejected as out of range", size, what, need)))
+					}
+				}
+				if sites == 0 {
+					out = append(out, bad(rule, key, c.P.InstrPos(call), "the size is a parameter and no caller was found"))
+				}
+				continue
+			}
+			size, isConst := constInt(sizeArg)
 			if !isConst {
 				out = append(out, bad(rule, key, c.P.InstrPos(call), "the size is not a constant"))
 				continue
@@ -580,40 +680,7 @@ func (c *Ctx) PARSEWIDTH(rule string) []report.Obligation {
 			if size == 0 {
 				size = 64 // int
 			}
-			need, what := 0, ""
-			var visit func(v ssa.Value, depth int)
-			visit = func(v ssa.Value, depth int) {
-				for _, r := range *v.Referrers() {
-					switch x := r.(type) {
-					case *ssa.Extract:
-						if x.Index == 0 {
-							visit(x, depth)
-						}
-					case *ssa.Convert:
-						if w := typeBits(x.Type()); w > need {
-							need, what = w, "converted to "+c.P.TypeStr(x.Type())
-						}
-					case *ssa.Phi:
-						if depth < 3 {
-							visit(x, depth+1)
-						}
-					case *ssa.DebugRef:
-					case *ssa.Return:
-						// the whole tuple is returned: the value keeps its type
-						if w := typeBits(v.Type()); v.Type() != nil && w > need {
-							need, what = w, "used as "+c.P.TypeStr(v.Type())
-						}
-						if _, isTuple := v.Type().(*types.Tuple); isTuple && 64 > need {
-							need, what = 64, "returned as it is"
-						}
-					default:
-						if w := typeBits(v.Type()); w > need {
-							need, what = w, "used as "+c.P.TypeStr(v.Type())
-						}
-					}
-				}
-			}
-			visit(call, 0)
+			need, what := needOf(call, 0)
 			out = append(out, verdict(int(size) >= need, rule, key, c.P.InstrPos(call),
 				fmt.Sprintf("size %d, result %s", size, what),
 				fmt.Sprintf("size %d asked, but the result is %s (%d bits): values that fit the type are rejected as out of range", size, what, need)))
@@ -913,6 +980,10 @@ func derivesFrom(v, src ssa.Value, depth int) bool {
 		return derivesFrom(x.X, src, depth+1)
 	case *ssa.Lookup:
 		return derivesFrom(x.X, src, depth+1)
+	case *ssa.TypeAssert:
+		return derivesFrom(x.X, src, depth+1)
+	case *ssa.MakeInterface:
+		return derivesFrom(x.X, src, depth+1)
 	case *ssa.Alloc:
 		// a local copy of an element: what was stored into it
 		for _, r := range *x.Referrers() {
@@ -1051,41 +1122,95 @@ func (c *Ctx) PRUNEREFS(rule string) []report.Obligation {
 		if !resources[last] {
 			continue
 		}
-		var sets []ssa.Value
-		for _, b := range fn.Blocks {
-			for _, in := range b.Instrs {
-				if mu, ok := in.(*ssa.MapUpdate); ok && derivesFrom(mu.Key, src, 0) {
-					sets = append(sets, mu.Map)
-				}
-			}
-		}
 		key := c.P.FuncID(fn) + " :: the names collected from ." + p + " filter Project." + last
 		if src.(ssa.Instruction).Parent() != fn {
 			out = append(out, ok(rule+"-kind", key, c.P.InstrPos(src.(ssa.Instruction)), "collected in the helper "+c.P.FuncID(src.(ssa.Instruction).Parent())+": the set it fills is not traced across the call"))
 			continue
 		}
+		// the sets fed from the entries of this field: a map updated under a key taken from an entry, or a
+		// local collection handed to a call together with something taken from an entry (set.Add(v.Source))
+		var sets []ssa.Value
+		isLocalColl := func(v ssa.Value) bool {
+			switch v.Type().Underlying().(type) {
+			case *types.Map, *types.Slice:
+			default:
+				return false
+			}
+			switch x := v.(type) {
+			case *ssa.MakeMap, *ssa.MakeSlice, *ssa.Call, *ssa.Phi:
+				return true
+			case *ssa.UnOp:
+				_, isAlloc := x.X.(*ssa.Alloc)
+				return isAlloc
+			}
+			return false
+		}
+		for _, b := range fn.Blocks {
+			for _, in := range b.Instrs {
+				switch x := in.(type) {
+				case *ssa.MapUpdate:
+					if derivesFrom(x.Key, src, 0) {
+						sets = append(sets, x.Map)
+					}
+				case ssa.CallInstruction:
+					args := x.Common().Args
+					fed := false
+					for _, a := range args {
+						if derivesFrom(a, src, 0) {
+							fed = true
+						}
+					}
+					if fed {
+						for _, a := range args {
+							if isLocalColl(a) && !derivesFrom(a, src, 0) {
+								sets = append(sets, a)
+							}
+						}
+					}
+				}
+			}
+		}
 		if len(sets) == 0 {
 			out = append(out, bad(rule+"-kind", key, c.P.InstrPos(src.(ssa.Instruction)), "nothing is recorded from the entries of this field"))
 			continue
 		}
+		// what the sets filter: a lookup in Project.R under a name from the set, or a call that takes the set
+		// together with Project.R (a shared keep-only-the-referenced helper)
 		var filtered []string
+		fromSet := func(v ssa.Value) bool {
+			for _, s := range sets {
+				if derivesFrom(v, s, 0) {
+					return true
+				}
+			}
+			return false
+		}
 		for _, b := range fn.Blocks {
 			for _, in := range b.Instrs {
-				lk, ok := in.(*ssa.Lookup)
-				if !ok {
-					continue
-				}
-				fromSet := false
-				for _, s := range sets {
-					if derivesFrom(lk.Index, s, 0) {
-						fromSet = true
+				switch x := in.(type) {
+				case *ssa.Lookup:
+					if !fromSet(x.Index) {
+						continue
 					}
-				}
-				if !fromSet {
-					continue
-				}
-				if pp, ok := fieldPathOf(lk.X, "Project", 0); ok && len(pp) == 1 {
-					filtered = append(filtered, pp[0])
+					if pp, ok := fieldPathOf(x.X, "Project", 0); ok && len(pp) == 1 {
+						filtered = append(filtered, pp[0])
+					}
+				case ssa.CallInstruction:
+					args := x.Common().Args
+					has := false
+					for _, a := range args {
+						if fromSet(a) {
+							has = true
+						}
+					}
+					if !has {
+						continue
+					}
+					for _, a := range args {
+						if pp, ok := fieldPathOf(a, "Project", 0); ok && len(pp) == 1 && resources[pp[0]] {
+							filtered = append(filtered, pp[0])
+						}
+					}
 				}
 			}
 		}
@@ -1118,4 +1243,131 @@ func (c *Ctx) namedStruct(pkg, name string) *types.Struct {
 		}
 	}
 	return nil
+}
+
+// ---------------------------------------------------------------------------
+// REVALID: a model loaded for an `include` is imported into the including
+// model and validated again there. What the load adds to a resource mapping
+// after its own validation (ResolveEnvironment: the value of a config / secret
+// taken from the environment) must therefore not be one of the attributes the
+// exclusivity check of that section counts: the resource already carries one
+// of them (`environment`), a second one makes the including file fail with
+// "attributes are mutually exclusive" as soon as the variable is set.
+// ---------------------------------------------------------------------------
+
+func (c *Ctx) REVALID(rule string) []report.Obligation {
+	var out []report.Obligation
+	checks := c.table(rule, TChecks, &out)
+	root := c.P.Func("loader.ResolveEnvironment")
+	if root == nil {
+		out = append(out, anchorViolation(rule, "loader.ResolveEnvironment"))
+	}
+	if checks == nil || root == nil {
+		return out
+	}
+	fns := []*ssa.Function{root}
+	for _, cs := range callSites(root, func(com *ssa.CallCommon) bool { return true }) {
+		if cal := cs.Common().StaticCallee(); cal != nil && c.P.InModule(cal) && cal.Blocks != nil {
+			fns = append(fns, cal)
+		}
+	}
+	n := 0
+	// helpers one level further down take the section and the attribute as parameters: one evaluation per call site
+	type binding map[*ssa.Parameter]string
+	type unit struct {
+		fn   *ssa.Function
+		bind binding
+	}
+	var units []unit
+	seenFn := map[*ssa.Function]bool{}
+	for _, fn := range fns {
+		units = append(units, unit{fn, nil})
+		seenFn[fn] = true
+	}
+	for _, fn := range fns {
+		for _, cs := range callSites(fn, func(com *ssa.CallCommon) bool { return true }) {
+			cal := cs.Common().StaticCallee()
+			if cal == nil || !c.P.InModule(cal) || cal.Blocks == nil || seenFn[cal] {
+				continue
+			}
+			bd := binding{}
+			for i, a := range cs.Common().Args {
+				if k, ok := constStr(a); ok && i < len(cal.Params) {
+					bd[cal.Params[i]] = k
+				}
+			}
+			units = append(units, unit{cal, bd})
+		}
+	}
+	strOf := func(u unit, v ssa.Value) (string, bool) {
+		v = stripMI(v)
+		if k, ok := constStr(v); ok {
+			return k, true
+		}
+		if pa, ok := v.(*ssa.Parameter); ok {
+			k, ok := u.bind[pa]
+			return k, ok
+		}
+		return "", false
+	}
+	for _, u := range units {
+		fn := u.fn
+		for _, b := range fn.Blocks {
+			for _, in := range b.Instrs {
+				lk, ok := in.(*ssa.Lookup)
+				if !ok {
+					continue
+				}
+				if _, isParam := lk.X.(*ssa.Parameter); !isParam {
+					continue
+				}
+				section, ok := strOf(u, lk.Index)
+				if !ok {
+					continue
+				}
+				for _, b2 := range fn.Blocks {
+					for _, in2 := range b2.Instrs {
+						mu, ok := in2.(*ssa.MapUpdate)
+						if !ok {
+							continue
+						}
+						k, isK := strOf(u, mu.Key)
+						if !isK || !derivesFrom(mu.Map, lk, 0) {
+							continue
+						}
+						n++
+						key := c.P.FuncID(fn) + " :: adds `" + k + "` to an entry of " + section
+						counted := ""
+						for _, r := range checks.Rows {
+							if !tab.MatchPattern(section+".x", r.Pattern) {
+								continue
+							}
+							for _, a := range r.Args {
+								if a == k {
+									counted = r.Pattern + " -> " + r.Func
+								}
+							}
+						}
+						out = append(out, verdict(counted == "", rule, key, c.P.InstrPos(mu),
+							"not an attribute an exclusivity check of the section counts: the entry validates again after it is imported by an including file",
+							"the attribute is one of those the check "+counted+" allows only one of, and the entry already carries the one it was resolved from: the model no longer validates when an including file imports it"))
+					}
+				}
+			}
+		}
+	}
+	c.Stats[rule+".updates"] = n
+	if n == 0 {
+		out = append(out, anchorViolation(rule, "an attribute added by the environment resolution"))
+	}
+	return out
+}
+
+func contains(l []string, s string) bool {
+	for _, x := range l {
+		if x == s {
+			return true
+		}
+	}
+	return false
 }
